@@ -72,6 +72,26 @@ fn check_pipelined(first: &[u8], second: &[u8], cut: usize) -> Option<String> {
         Ok(other) => Some(format!("{desc} expected=(/a, /b, Disconnected) actual={other:?}")),
     }
 }
+/// a complete request followed by an unfinished one, then end of stream: whatever the split, the first parses and the
+/// second is Truncated (a head was begun) -- never the clean Disconnected of a connection closed between requests
+fn check_partial_second(cut: usize) -> Option<String> {
+    let t = b"GET /a HTTP/1.1\r\n\r\nGET /b HTT".to_vec();
+    let desc = format!("partialsecond cuts=[{cut}]");
+    let steps: Vec<Step> = if cut == 0 || cut >= t.len() { vec![Step::Data(t.clone()), Step::Eof] } else { vec![Step::Data(t[..cut].to_vec()), Step::Data(t[cut..].to_vec()), Step::Eof] };
+    let r = std::panic::catch_unwind(|| {
+        let mut buf: FixedBuf<N> = FixedBuf::new();
+        let mut rd = ScriptReader::new(steps);
+        let addr = std::net::SocketAddr::from(([127, 0, 0, 1], 1));
+        let a = block_on(read_http_request(addr, &mut buf, &mut rd)).map(|r| r.url.path().to_string());
+        let b = block_on(read_http_request(addr, &mut buf, &mut rd)).map(|r| r.url.path().to_string());
+        (a, b)
+    });
+    match r {
+        Err(_) => Some(format!("{desc} expected=(/a, Truncated) actual=panic")),
+        Ok((Ok(a), Err(HttpError::Truncated))) if a == "/a" => None,
+        Ok(other) => Some(format!("{desc} expected=(/a, Truncated) actual={other:?}")),
+    }
+}
 fn hex(b: &[u8]) -> String { b.iter().map(|x| format!("{x:02x}")).collect() }
 fn unhex(s: &str) -> Vec<u8> { (0..s.len() / 2).map(|i| u8::from_str_radix(&s[2 * i..2 * i + 2], 16).unwrap()).collect() }
 
@@ -80,6 +100,10 @@ fn main() {
     let args: Vec<String> = std::env::args().collect();
     if args.len() >= 3 && args[1] == "replay" {
         let w = args[2..].join(" ");
+        if w.starts_with("partialsecond") {
+            let cut: usize = w.split("cuts=[").nth(1).unwrap().split(']').next().unwrap().trim().parse().unwrap_or(0);
+            match check_partial_second(cut) { Some(m) => { println!("WITNESS {m}"); std::process::exit(1) } None => { println!("OK witness no longer fails"); std::process::exit(0) } }
+        }
         if w.starts_with("pipelined") {
             let bytes = unhex(w.split("bytes=").nth(1).unwrap().split(' ').next().unwrap());
             let cut: usize = w.split("cuts=[").nth(1).unwrap().split(']').next().unwrap().trim().parse().unwrap_or(0);
@@ -144,6 +168,7 @@ fn main() {
             if let Some(m) = check_pipelined(&first, &second, cut) { if found.len() < 5 { found.push(m) } }
         }
     }
+    for cut in 0..32 { n += 1; if let Some(m) = check_partial_second(cut) { if found.len() < 5 { found.push(m) } } }
     println!("EVALUATED {n}");
     for f in &found { println!("WITNESS {f}"); }
     std::process::exit(if found.is_empty() { 0 } else { 1 });
